@@ -43,9 +43,9 @@ type Server struct {
 
 // State is the running state.
 type State struct {
-	Backends map[string]map[string]*Server // backend -> server name -> state
-	Certs    map[string]string             // certificate file -> PEM content
-	Loaded   *hapcfg.Config                // configuration as parsed at the last successful reload
+	Backends map[string]map[string]*Server    // backend -> server name -> state
+	Certs    map[string]string                // certificate file -> PEM content
+	Loaded   *hapcfg.Config                   // configuration as parsed at the last successful reload
 	CrtLists map[string][]hapcfg.CrtListEntry // frontend -> crt-list entries as loaded
 }
 
